@@ -191,13 +191,30 @@ def undeclared_key_reading_rule(cx, rep, rid):
             tests = [c for c in walk(node["cond"]) if c["k"] == "MethodCall" and c.get("method") == "is_subtype" and any(is_idx_field(a, "key") for a_ in (c.get("args") or []) for a in walk(a_))]
             if not tests:
                 continue
-            reads = [x for x in walk(node["then"]) if is_idx_field(x, "value")]
+            # the region in which the admission holds: the then-branch - or, for a negated test whose branch leaves
+            # (`if !k.is_subtype(&idx.key)? { return .. }`), the rest of the enclosing block (b65)
+            cond = node["cond"]
+            while cond["k"] in ("DropTemps", "Paren"):
+                cond = cond["e"]
+            negated = cond["k"] == "Unary" and cond.get("op") in ("Not", "!")
+            region = [node["then"]]
+            if negated:
+                leaves = any(x["k"] in ("Ret", "Continue", "Break") for x in walk(node["then"]))
+                region = []
+                if leaves:
+                    for blk in walk(t["body"]):
+                        if blk["k"] == "Block":
+                            sts = blk.get("stmts") or []
+                            for i_, st in enumerate(sts):
+                                if st.get("e") is node or st is node:
+                                    region = sts[i_ + 1:] + ([blk["expr"]] if blk.get("expr") is not None else [])
+            reads = [x for rg in region for x in walk(rg) if is_idx_field(x, "value")]
             for r in reads:
                 n += 1
                 ok = False
                 why = None
                 cur = r
-                while id(cur) in parents and cur is not node:
+                while id(cur) in parents and cur is not node and not any(cur is rg for rg in region if negated):
                     par = parents[id(cur)]
                     if par["k"] in ("Call", "MethodCall") and ((par.get("callee") or "").endswith("make_optional") or (par.get("resolved") or "").endswith("make_optional")):
                         ok, why = True, "make_optional"
